@@ -1,1 +1,300 @@
-// baton scheduler
+//! Baton scheduler: simulated caller threads are real OS threads, but exactly one of them runs at
+//! any time. At every yield point the running thread asks the scheduler — which draws from the
+//! run's single PRNG, or follows a recorded schedule — whether to keep going or hand the baton to
+//! another runnable thread. A run is therefore a pure function of (seed, code); the schedule is the
+//! list of hand-offs and is what the replay file stores.
+//!
+//! Foreign blocking (code under test blocking on an OS lock held by a parked thread): the baton
+//! holder stops reaching yield points. A wall-clock watchdog then switches the run to free-running
+//! mode (all threads released, yields become no-ops). Results are still judged — any real execution
+//! is a legal schedule — but the run is flagged and not claimed to be replayable. If nothing
+//! finishes even then, it is a deadlock.
+
+use crate::rng::{Fnv, Rng};
+use std::cell::RefCell;
+use std::sync::{Arc, Condvar, Mutex};
+use std::time::Duration;
+
+#[derive(Clone, Debug, PartialEq, Eq)]
+pub enum Policy {
+    /// switch with probability 1/q at every yield point
+    Uniform { q: usize },
+    /// `points` preemption points at fixed decision indices, otherwise run to completion
+    Pct { points: Vec<u64> },
+    /// switch (probability 1/2) only at API-level seams, never inside a search
+    OpBoundary,
+    /// follow a recorded schedule: (decision index, thread to run)
+    Forced { handoffs: Vec<(u64, usize)> },
+}
+
+pub const SITE_OP_BOUNDARY: u32 = 100;
+pub const SITE_FINISH: u32 = 101;
+
+#[derive(Default, Clone, Debug)]
+pub struct SchedStats {
+    pub decisions: u64,
+    pub handoffs: u64,
+    pub site_counts: Vec<u64>,
+    pub max_in_flight: usize,
+    pub overlap_decisions: u64,
+    pub free_run: bool,
+}
+
+struct Inner {
+    rng: Rng,
+    policy: Policy,
+    running: usize,
+    alive: Vec<bool>,
+    started: bool,
+    free_run: bool,
+    decision: u64,
+    handoffs: Vec<(u64, usize)>,
+    stats: SchedStats,
+    /// per thread: currently inside a search (between a search entry seam and the op's end)
+    in_search: Vec<bool>,
+    max_decisions: u64,
+    budget_exhausted: bool,
+}
+
+pub struct Sched {
+    inner: Mutex<Inner>,
+    cvs: Vec<Condvar>,
+    main_cv: Condvar,
+    n: usize,
+}
+
+thread_local! {
+    static CTX: RefCell<Option<(Arc<Sched>, usize)>> = RefCell::new(None);
+}
+
+pub const NONE: usize = usize::MAX;
+
+impl Sched {
+    pub fn new(n: usize, seed: u64, policy: Policy, max_decisions: u64) -> Arc<Sched> {
+        Arc::new(Sched {
+            inner: Mutex::new(Inner {
+                rng: Rng::new(seed),
+                policy,
+                running: NONE,
+                alive: vec![true; n],
+                started: false,
+                free_run: false,
+                decision: 0,
+                handoffs: Vec::new(),
+                stats: SchedStats {
+                    site_counts: vec![0; 128],
+                    ..SchedStats::default()
+                },
+                in_search: vec![false; n],
+                max_decisions,
+                budget_exhausted: false,
+            }),
+            cvs: (0..n).map(|_| Condvar::new()).collect(),
+            main_cv: Condvar::new(),
+            n,
+        })
+    }
+
+    /// Called by a simulated thread first thing: park until it is given the baton.
+    pub fn enter(self: &Arc<Sched>, me: usize) {
+        CTX.with(|c| *c.borrow_mut() = Some((self.clone(), me)));
+        let mut g = self.inner.lock().unwrap();
+        while !(g.free_run || (g.started && g.running == me)) {
+            g = self.cvs[me].wait(g).unwrap();
+        }
+    }
+
+    /// Called by the main thread once all simulated threads are spawned.
+    pub fn start(&self) {
+        let mut g = self.inner.lock().unwrap();
+        let first = match &g.policy {
+            Policy::Forced { handoffs } => handoffs.iter().find(|(d, _)| *d == 0).map(|(_, t)| *t).unwrap_or(0),
+            _ => {
+                let n = self.n;
+                g.rng.below(n)
+            }
+        };
+        g.handoffs.push((0, first));
+        g.decision = 1;
+        g.running = first;
+        g.started = true;
+        self.cvs[first].notify_one();
+    }
+
+    fn choose_other(g: &mut Inner, me: usize) -> Option<usize> {
+        let others: Vec<usize> = (0..g.alive.len()).filter(|t| *t != me && g.alive[*t]).collect();
+        if others.is_empty() {
+            None
+        } else {
+            let k = g.rng.below(others.len());
+            Some(others[k])
+        }
+    }
+
+    /// A yield point reached by thread `me` (which holds the baton).
+    fn at_yield(&self, me: usize, site: u32) {
+        let mut g = self.inner.lock().unwrap();
+        if g.free_run {
+            return;
+        }
+        debug_assert_eq!(g.running, me);
+        let d = g.decision;
+        g.decision += 1;
+        g.stats.decisions += 1;
+        if (site as usize) < g.stats.site_counts.len() {
+            g.stats.site_counts[site as usize] += 1;
+        }
+        // probes
+        if (3..=5).contains(&site) {
+            g.in_search[me] = true;
+        } else if site == SITE_OP_BOUNDARY {
+            g.in_search[me] = false;
+        }
+        let in_flight = g.in_search.iter().filter(|x| **x).count();
+        if in_flight > g.stats.max_in_flight {
+            g.stats.max_in_flight = in_flight;
+        }
+        if in_flight >= 2 {
+            g.stats.overlap_decisions += 1;
+        }
+        if g.decision > g.max_decisions {
+            g.budget_exhausted = true;
+        }
+        let switch_to: Option<usize> = match g.policy.clone() {
+            Policy::Forced { handoffs } => handoffs
+                .iter()
+                .find(|(x, _)| *x == d)
+                .map(|(_, t)| *t)
+                .filter(|t| *t != me && *t < g.alive.len() && g.alive[*t]),
+            Policy::Uniform { q } => {
+                if g.rng.below(q.max(1)) == 0 {
+                    Sched::choose_other(&mut g, me)
+                } else {
+                    None
+                }
+            }
+            Policy::Pct { points } => {
+                if points.contains(&d) {
+                    Sched::choose_other(&mut g, me)
+                } else {
+                    None
+                }
+            }
+            Policy::OpBoundary => {
+                if site >= 3 && g.rng.below(2) == 0 {
+                    Sched::choose_other(&mut g, me)
+                } else {
+                    None
+                }
+            }
+        };
+        if let Some(t) = switch_to {
+            g.handoffs.push((d, t));
+            g.stats.handoffs += 1;
+            g.running = t;
+            self.cvs[t].notify_one();
+            while !(g.free_run || g.running == me) {
+                g = self.cvs[me].wait(g).unwrap();
+            }
+        }
+    }
+
+    /// Thread `me` is done: hand the baton on (or wake the main thread when it was the last).
+    pub fn finish(&self, me: usize) {
+        CTX.with(|c| *c.borrow_mut() = None);
+        let mut g = self.inner.lock().unwrap();
+        g.alive[me] = false;
+        g.in_search[me] = false;
+        if g.free_run {
+            self.main_cv.notify_all();
+            return;
+        }
+        let d = g.decision;
+        g.decision += 1;
+        let next = match g.policy.clone() {
+            Policy::Forced { handoffs } => handoffs
+                .iter()
+                .find(|(x, _)| *x == d)
+                .map(|(_, t)| *t)
+                .filter(|t| *t < g.alive.len() && g.alive[*t])
+                .or_else(|| (0..g.alive.len()).find(|t| g.alive[*t])),
+            _ => Sched::choose_other(&mut g, me),
+        };
+        match next {
+            Some(t) => {
+                g.handoffs.push((d, t));
+                g.running = t;
+                self.cvs[t].notify_one();
+            }
+            None => {
+                g.running = NONE;
+            }
+        }
+        self.main_cv.notify_all();
+    }
+
+    /// Main thread: wait until every simulated thread finished. Returns Err("deadlock") when no
+    /// thread can make progress even in free-running mode.
+    pub fn wait_all(&self, stall: Duration, deadlock_after: Duration) -> Result<(), &'static str> {
+        let mut g = self.inner.lock().unwrap();
+        let mut last_decision = g.decision;
+        let mut last_alive = g.alive.iter().filter(|a| **a).count();
+        let mut stalled_for = Duration::ZERO;
+        loop {
+            if g.alive.iter().all(|a| !*a) {
+                return Ok(());
+            }
+            let (ng, to) = self.main_cv.wait_timeout(g, Duration::from_millis(250)).unwrap();
+            g = ng;
+            let alive = g.alive.iter().filter(|a| **a).count();
+            if g.decision != last_decision || alive != last_alive {
+                last_decision = g.decision;
+                last_alive = alive;
+                stalled_for = Duration::ZERO;
+                continue;
+            }
+            if to.timed_out() {
+                stalled_for += Duration::from_millis(250);
+            }
+            if !g.free_run && stalled_for >= stall {
+                // foreign blocking: let everybody run
+                g.free_run = true;
+                g.stats.free_run = true;
+                stalled_for = Duration::ZERO;
+                for cv in &self.cvs {
+                    cv.notify_all();
+                }
+            } else if g.free_run && stalled_for >= deadlock_after {
+                return Err("deadlock");
+            }
+        }
+    }
+
+    pub fn take_trace(&self) -> (Vec<(u64, usize)>, SchedStats, bool) {
+        let g = self.inner.lock().unwrap();
+        (g.handoffs.clone(), g.stats.clone(), g.budget_exhausted)
+    }
+}
+
+/// The hook installed through `fancy_regex::verif::set_yield_hook`.
+pub fn yield_hook(site: u32) {
+    let ctx = CTX.with(|c| c.borrow().clone());
+    if let Some((s, me)) = ctx {
+        s.at_yield(me, site);
+    }
+}
+
+/// Explicit yield by the harness itself (between operations).
+pub fn yield_now(site: u32) {
+    yield_hook(site)
+}
+
+pub fn schedule_hash(handoffs: &[(u64, usize)]) -> u64 {
+    // projection onto the actual hand-offs: who ran after whom, and at which decision
+    let mut h = Fnv::new();
+    for (d, t) in handoffs {
+        h.u64(*d);
+        h.u64(*t as u64);
+    }
+    h.0
+}
